@@ -436,7 +436,30 @@ def chunk_result_rule(rep, u, fname="http_data_decode_chunked"):
     desc = "%s: *data_ret is stored before every success return" % fname
     (rep.violated if bad or not succ else rep.proved)("R-OUTDEF", fn, "data-pointer-always-set", desc,
                                                       "a success return is reachable without a store: \"0\\r\\n\\r\\n\" returns 0 with size 0 and the caller's pointer untouched" if bad else "")
-    return 1
+    # the chunk-size parser (ustrh2usize) wraps modulo 2^64: inside the chunk loop the number of significant hex digits is
+    # bounded by the width of size_t before the size is used
+    loops = fn.loops()
+    inloop = set().union(*loops.values()) if loops else set()
+    parses = [pos for pos, root, c, ps in fn.calls() if (c.get("fn") or "").startswith(("ustrh2u", "strh2u")) and pos[0] in inloop]
+    ok = True
+    for pp in parses:
+        # (the last-line parse outside a CRLF has its own exit; the in-loop size parse is the one whose result is added up)
+        bounded = False
+        for bid in inloop:
+            c = fn.blocks[bid].cond
+            if c is None or not fn.dominates(bid, pp[0]):
+                continue
+            if any(y.get("k") == "sizeof" or const_val(y) in (16, 8) for y, _ in _walk(c)) and any(any(e.get("k") == "ret" and const_val(e.get("e") or {}) not in (None, 0) for e in fn.blocks[s_].elems)
+                                                                                                for s_ in fn.blocks[bid].rsucc()):
+                bounded = True
+        tail_only = any(e.get("k") == "ret" for s_ in fn.reach_from([pp[0]]) for e in fn.blocks[s_].elems) and not any(
+            x.get("k") == "bin" and x["op"] == "+=" for b_ in fn.reach_from([pp[0]]) & inloop for e in fn.blocks[b_].elems for x, _ in _walk(e))
+        if not bounded and not tail_only:
+            ok = False
+    desc = "%s: the chunk size's significant hex digits are bounded by the width of size_t before it is used" % fname
+    (rep.proved if ok and parses else rep.violated)("R-OUTDEF", fn, "chunk-size-fits", desc, "" if ok and parses else
+                                                    "\"10000000000000005\" (17 digits) wraps to 5 in the lenient hex parser and the body 'hello' is accepted as that chunk")
+    return 2
 
 
 def cache_type_flag_rule(rep, u, fname="dns_rslvr_cache_entry_data_add"):
